@@ -9,6 +9,7 @@ package main
 
 import (
 	"fmt"
+	"go/ast"
 	"go/types"
 	"sort"
 	"strings"
@@ -25,7 +26,7 @@ func init() {
 	register(&Rule{Name: "PAIR.report", Min: 30, Doc: "every core store is named by a write/increment/decrement report of the executing warrior at the same address within the task", Run: rulePairReport})
 	register(&Rule{Name: "POP.report", Min: 1, Doc: "each executed task is announced by a task-pop report with its PC and warrior before it runs", Run: rulePopReport})
 	register(&Rule{Name: "SPAWN.mod", Min: 3, Doc: "every use of the load offset in spawn (core index, initial task, report) passes through % M", Run: ruleSpawnMod})
-	register(&Rule{Name: "MOD.len", Min: 2, Doc: "the core is only ever make([]Instruction, M)", Run: ruleModLen})
+	register(&Rule{Name: "MOD.len", Min: 1, Doc: "the core is only ever make([]Instruction, M)", Run: ruleModLen})
 }
 
 type redCtx struct {
@@ -100,6 +101,47 @@ func (rc *redCtx) reduced(t *T) (bool, string) {
 }
 
 // libFuncs: non-synthetic library functions.
+// isCodeList: t is a warrior's instruction list: the Code field of its data,
+// or a parameter of an unexported function to which every call site passes
+// such a list.
+func isCodeList(w *World, fn *ssa.Function, t *T, depth int) bool {
+	t = stripConv(t)
+	if t.Op == "sel" && t.S == "Code" {
+		return true
+	}
+	if t.Op != "p" || fn == nil || depth > 2 || ast.IsExported(fn.Name()) || w.addrTaken[fn] {
+		return false
+	}
+	k := -1
+	for i, prm := range fn.Params {
+		if prm.Name() == t.S {
+			k = i
+		}
+	}
+	if k < 0 {
+		return false
+	}
+	n := 0
+	for _, root := range w.CallerRoots(fn) {
+		paths, err := w.Paths(root)
+		if err != nil {
+			return false
+		}
+		for _, p := range paths {
+			for i := range p.Events {
+				e := &p.Events[i]
+				if (e.Kind == "call" || e.Kind == "inline") && e.Callee == fn && k < len(e.Args) {
+					n++
+					if !isCodeList(w, root, e.Args[k], depth+1) {
+						return false
+					}
+				}
+			}
+		}
+	}
+	return n > 0
+}
+
 func libFuncs(w *World) []*ssa.Function {
 	var out []*ssa.Function
 	for _, f := range w.Funcs {
@@ -241,7 +283,7 @@ func ruleModStore(w *World, r *RuleResult) {
 						good, why = true, "copy of a core cell"
 					} else if v.Op == "p" && strings.HasPrefix(rc.role[v.S], "IR") {
 						good, why = true, "copy of "+rc.role[v.S]
-					} else if v.Op == "elem" && v.A[0].Op == "sel" && v.A[0].S == "Code" {
+					} else if v.Op == "elem" && isCodeList(w, fn, v.A[0], 0) {
 						good, why = true, "instruction of the warrior's own copied code (assumption A1: loaded warriors have fields < M)"
 					}
 					d.add(good, key, c.posOf(e), why, "whole cell overwritten with "+v.Show()+", which is not a copy of a valid instruction")
